@@ -210,3 +210,9 @@ func RunReplay(fn func()) (outcome string) {
 	fn()
 	return "ok"
 }
+
+// CopyPayload is engine-only: a typed copy of a JSON carrier payload into *out
+// (see pkg/zzverifhttp).  Native code never reaches it.
+func CopyPayload(payload any, out any) bool {
+	panic("zzverif.CopyPayload is only meaningful under the symbolic engine")
+}
